@@ -123,6 +123,22 @@ func (c11) Gen(r *rand.Rand, tier string, i int) any {
 			sb.WriteString("q(" + v.Const().String() + ").\n")
 		}()
 	}
+	// hash twins: a constant of another kind with the same Hash() as a member that is already a base fact
+	// (n ~ duration n ns ~ time n ns, /a ~ "/a" ~ b"/a", 0 ~ [] ~ {} ~ 0.0); a memo keyed by hash must not
+	// hand it the other constant's type
+	twinText := ""
+	if len(vals) > 0 && r.Intn(3) == 0 {
+		v := vals[r.Intn(len(vals))]
+		if tw := c11HashTwins(v); len(tw) > 0 {
+			w := tw[r.Intn(len(tw))]
+			func() {
+				defer func() { recover() }()
+				if v.Const().Hash() == w.Const().Hash() {
+					twinText = "q(" + v.Const().String() + ").\nq(" + w.Const().String() + ").\n"
+				}
+			}()
+		}
+	}
 	// p's declared type: related to t
 	pt := t
 	switch r.Intn(6) {
@@ -244,7 +260,48 @@ func (c11) Gen(r *rand.Rand, tier string, i int) any {
 		}
 		fmt.Fprintf(&sb, "Decl p(X) bound [%s].\np(X) :- q(S), :match_field(S, /a, X).\n", ptText)
 	}
+	switch shape {
+	case "copy", "copy-second-row", "pair", "list", "cons", "struct", "map":
+		sb.WriteString(twinText)
+	}
 	return c11Case{Text: sb.String(), Shape: shape, Syntax: syntax}
+}
+
+// c11HashTwins returns constants of other kinds whose Hash() equals v's.
+func c11HashTwins(v gen.Val) []gen.Val {
+	var out []gen.Val
+	switch v.K {
+	case "num":
+		out = append(out, gen.Dur(v.N), gen.TimeV(v.N))
+		if v.N == 0 {
+			out = append(out, gen.Float(0), gen.ListV(), gen.MapV(), gen.StructV())
+		}
+	case "dur":
+		out = append(out, gen.Num(v.N), gen.TimeV(v.N))
+	case "time":
+		out = append(out, gen.Num(v.N), gen.Dur(v.N))
+	case "name":
+		out = append(out, gen.Str(v.S), gen.BytesV([]byte(v.S)))
+	case "str":
+		out = append(out, gen.BytesV([]byte(v.S)))
+		if strings.HasPrefix(v.S, "/") && len(v.S) > 1 && !strings.ContainsAny(v.S, " \"\\\n") {
+			out = append(out, gen.Name(v.S))
+		}
+	case "float":
+		if v.Bits == 0 {
+			out = append(out, gen.Num(0), gen.ListV(), gen.Dur(0))
+		} else {
+			out = append(out, gen.Num(int64(v.Bits)))
+		}
+	case "list", "map", "struct":
+		if len(v.Kids) == 0 {
+			out = append(out, gen.Num(0), gen.Dur(0), gen.Float(0))
+			if v.K != "list" {
+				out = append(out, gen.ListV())
+			}
+		}
+	}
+	return out
 }
 
 func (c11) Decode(raw json.RawMessage) (any, error) {
